@@ -37,6 +37,10 @@ POOL = {
     "dt": ["2020-01-01", "2020-01-02", "2020-01-03"],
     "dtz": ["2020-01-01", "2020-01-02", "2020-01-03"],   # DateTime(tz=UTC, tz agnostic)
     "const": [1, 1, 1],
+    # C05 widen_time(): timedelta column / index; tz-aware DateTime that carries
+    # (or not) its own tz_localize_kwargs, fed with NAIVE timestamps
+    "td": ["1h", "2h", "3h"],
+    "dtl": ["2020-01-01", "2020-01-02", "2020-01-03"],
 }
 NUMERIC = ("int", "float", "const")
 
@@ -59,7 +63,33 @@ CHECKS = {
            ("in_range", ["2019-01-01", "2030-01-01"], "1999-01-01")],
     "dtz": [],
     "const": [("eq", [1], 9), ("isin", [[1]], 9)],
+    "td": [("ge", ["0h"], "-5h"), ("lt", ["100h"], "500h"),
+           ("isin", [["1h", "2h", "3h"]], "9h"), ("notin", [["9h", "10h"]], "9h")],
+    "dtl": [],
 }
+# list-valued statistics on datetime-like / timedelta-like data (widen_time)
+TIME_LIST_CHECKS = {
+    "dt": [("isin", [["2020-01-01", "2020-01-02", "2020-01-03"]], "1999-01-01"),
+           ("notin", [["1999-01-01", "1998-01-01"]], "1999-01-01")],
+    "td": [("isin", [["1h", "2h", "3h"]], "9h"), ("notin", [["9h", "10h"]], "9h")],
+}
+TIME_SCALAR_CHECKS = {
+    "dt": [("ge", ["2019-01-01"], "1999-01-01"), ("lt", ["2030-01-01"], "2040-01-01")],
+    "td": [("ge", ["0h"], "-5h"), ("lt", ["100h"], "500h")],
+}
+# time zones with their DST transitions of 2023: a wall-clock time that exists
+# twice (clocks go back) and one that does not exist (clocks go forward)
+TZ_DST = {
+    "Europe/Berlin": {"ambiguous": "2023-10-29 02:30:00",
+                      "nonexistent": "2023-03-26 02:30:00"},
+    "America/New_York": {"ambiguous": "2023-11-05 01:30:00",
+                         "nonexistent": "2023-03-12 02:30:00"},
+}
+# tz_localize_kwargs a DateTime data type may carry ({} = the documented defaults)
+TZ_OPTS = [{}, {}, {}, {"ambiguous": "NaT"}, {"nonexistent": "shift_forward"},
+           {"nonexistent": "NaT"}, {"nonexistent": "shift_backward"},
+           {"ambiguous": "NaT", "nonexistent": "shift_backward"},
+           {"ambiguous": "raise"}, {"ambiguous": "NaT", "nonexistent": "NaT"}]
 
 TITLES = [None, "T", "a title"]
 DESCS = [None, "some description"]
@@ -306,6 +336,130 @@ def widen_dtype_less(rng, spec):
     return spec
 
 
+def _time_checks(rng, dtype, rich=False):
+    """1-2 checks with LIST / TUPLE valued statistics (+ sometimes a scalar one)."""
+    out, kinds = [], set()
+    for kind, args, bad in rng.sample(TIME_LIST_CHECKS[dtype], rng.randint(1, 2)):
+        c = {"kind": kind, "args": copy.deepcopy(args), "bad": bad}
+        r = rng.random()
+        if r < 0.2:
+            c["container"] = "tuple"
+        if rich and rng.random() < 0.2:
+            c["n_failure_cases"] = 1
+        out.append(c)
+        kinds.add(kind)
+    if rng.random() < 0.35:
+        kind, args, bad = rng.choice(TIME_SCALAR_CHECKS[dtype])
+        out.append({"kind": kind, "args": copy.deepcopy(args), "bad": bad})
+    return out
+
+
+def _tzl_column(rng, name, tz, opts, regex=False):
+    col = gen_column(rng, name, "dtl", backend="pandas", rich=True, regex=regex,
+                     allow_custom=False, p_drop=0.0)
+    col["checks"] = []
+    if rng.random() < 0.4:
+        # list-valued statistics of time zone AWARE values
+        kind, args, bad = rng.choice(TIME_LIST_CHECKS["dt"])
+        col["checks"].append({"kind": kind, "args": copy.deepcopy(args), "bad": bad,
+                              "tz": tz})
+    col["tz"], col["tz_opts"] = tz, copy.deepcopy(opts)
+    col["coerce"] = rng.random() < 0.85
+    col["nullable"] = rng.random() < 0.6
+    col["unique"] = False
+    col.pop("default", None)
+    col["required"] = True
+    return col
+
+
+def widen_time(rng, spec, force=None):
+    """C05 only (separate random draws, gen_spec is shared with C15).
+
+    "list": columns / index levels of a datetime-like or timedelta-like dtype
+            whose isin / notin checks hold LIST (or tuple) valued statistics -
+            the values a serialiser has to convert item by item;
+    "tzl":  time zone aware ``pandas_engine.DateTime`` columns / index levels /
+            series, with and without their own ``tz_localize_kwargs``, that are
+            coerced from NAIVE timestamps; the probes hold the wall-clock
+            times of the DST transitions of the zone (the only data on which
+            the localize options matter).
+    ``force`` in (None, "list", "tzl", "tzl-default") makes the canary specs."""
+    if spec["backend"] != "pandas" or spec["kind"] == "model":
+        return spec
+    kind, cols = spec["kind"], spec["columns"]
+    r = rng.random()
+    what = force or ("list" if r < 0.16 else "tzl" if r < 0.34 else None)
+    if what is None:
+        return spec
+    if kind in ("series", "column"):
+        c = cols[0]
+        if what == "list":
+            if c.get("no_dtype"):
+                return spec
+            c["dtype"] = rng.choice(["dt", "td"])
+            c["checks"] = _time_checks(rng, c["dtype"], rich=True)
+            c.pop("default", None)
+            c.pop("parsers", None)
+            spec["time_list"] = True
+            if kind == "series" and rng.random() < 0.5:
+                lv = gen_index_level(rng, "idx", rng.choice(["dt", "td"]))
+                lv["checks"] = _time_checks(rng, lv["dtype"])
+                spec["index"] = [lv]
+        else:
+            if c.get("regex"):
+                return spec
+            tz = rng.choice(sorted(TZ_DST))
+            opts = {} if what == "tzl-default" else rng.choice(TZ_OPTS)
+            new = _tzl_column(rng, c["name"], tz, opts)
+            new["required"] = True
+            cols[0] = new
+            spec["tzl"] = True
+        return spec
+    if spec.get("dtype"):          # a frame-level dtype overrides the columns
+        return spec
+    if what == "list":
+        for name in ["t", "t2"][: rng.choice([1, 1, 2])]:
+            dt = rng.choice(["dt", "td"])
+            c = gen_column(rng, name, dt, backend="pandas", rich=True,
+                           allow_custom=False, p_drop=0.0)
+            c["checks"] = _time_checks(rng, dt, rich=True)
+            c["required"] = True
+            cols.insert(rng.randrange(len(cols) + 1), c)
+        if not spec.get("df_checks") and rng.random() < 0.5:
+            lv = gen_index_level(rng, "idx", rng.choice(["dt", "td"]))
+            lv["checks"] = _time_checks(rng, lv["dtype"])
+            if spec.get("index") and len(spec["index"]) > 1:
+                lv["name"], lv["unique"] = spec["index"][0]["name"], False
+                spec["index"][0] = lv
+            else:
+                spec["index"] = [lv]
+        spec["time_list"] = True
+        return spec
+    # "tzl": one or two tz-aware columns in one zone; their options differ
+    tz = rng.choice(sorted(TZ_DST))
+    n = 1 if what == "tzl-default" else rng.choice([1, 2, 2, 2])
+    optss = [rng.choice(TZ_OPTS) for _ in range(n)]
+    if what == "tzl-default":
+        optss = [{}]
+    elif n == 2 and rng.random() < 0.6:
+        # the pair the options exist for: documented defaults next to own options
+        optss = [{}, rng.choice([o for o in TZ_OPTS if o])]
+        rng.shuffle(optss)
+    at = rng.randrange(len(cols) + 1)
+    for name, opts in zip(["u", "w"], optss):
+        cols.insert(at, _tzl_column(rng, name, tz, opts))
+        at += 1
+    if what != "tzl-default" and not spec.get("df_checks") \
+            and len(spec.get("index") or []) < 2 and rng.random() < 0.4:
+        lv = gen_index_level(rng, "idx", "dt")
+        lv["dtype"], lv["checks"], lv["unique"] = "dtl", [], False
+        lv["tz"], lv["tz_opts"] = tz, copy.deepcopy(rng.choice(TZ_OPTS))
+        lv["coerce"], lv["nullable"] = True, rng.random() < 0.6
+        spec["index"] = [lv]
+    spec["tzl"] = True
+    return spec
+
+
 def gen_index_level(rng, name, dtype):
     lv = {"name": name, "dtype": dtype, "checks": [], "nullable": False,
           "unique": rng.random() < 0.4, "coerce": rng.random() < 0.2}
@@ -319,7 +473,18 @@ def gen_index_level(rng, name, dtype):
 # --------------------------------------------------------------------------
 # builders
 # --------------------------------------------------------------------------
+def _pd_dtype_of(col):
+    """dtype of a column / index-level spec (the "dtl" tag carries parameters)."""
+    if col["dtype"] == "dtl":
+        from pandera.engines.pandas_engine import DateTime
+        return DateTime(tz=col.get("tz", "UTC"),
+                        tz_localize_kwargs=copy.deepcopy(col.get("tz_opts") or {}))
+    return _pd_dtype(col["dtype"])
+
+
 def _pd_dtype(dt):
+    if dt == "td":
+        return "timedelta64[ns]"
     if dt == "dtz":
         from pandera.engines.pandas_engine import DateTime
         return DateTime(tz="UTC", time_zone_agnostic=True)
@@ -334,7 +499,13 @@ def _pl_dtype(dt):
             None: None}[dt]
 
 
-def _arg(dt, a, polars=False):
+def _arg(dt, a, polars=False, tz=None):
+    if isinstance(a, (list, tuple)) and dt in ("dt", "dtz", "td", "dtl"):
+        return type(a)(_arg(dt, x, polars, tz) for x in a)
+    if dt == "td" and isinstance(a, str):
+        return pd.Timedelta(a)
+    if dt == "dtl" and isinstance(a, str):
+        return pd.Timestamp(a, tz=tz)
     if dt in ("dt", "dtz") and isinstance(a, str):
         if polars:
             import datetime
@@ -356,7 +527,10 @@ def build_check(pa, dt, c, polars=False):
         if c.get("groupby"):
             kw["groupby"] = c["groupby"]
         return pa.Check(fn, name=c["fn"], **kw)
-    return getattr(pa.Check, c["kind"])(*[_arg(dt, a, polars) for a in c["args"]], **kw)
+    args = [_arg(dt, a, polars, c.get("tz")) for a in c["args"]]
+    if c.get("container") == "tuple":
+        args = [tuple(a) if isinstance(a, list) else a for a in args]
+    return getattr(pa.Check, c["kind"])(*args, **kw)
 
 
 def column_kwargs(pa, col, polars=False, for_index=False):
@@ -390,7 +564,7 @@ def build_column(col, backend="pandas", name=None):
     import pandera as pa
     # "no_dtype": the column declares no dtype of its own (data, checks and
     # probes still follow the dtype tag)
-    return pa.Column(None if col.get("no_dtype") else _pd_dtype(col["dtype"]),
+    return pa.Column(None if col.get("no_dtype") else _pd_dtype_of(col),
                      name=name, **column_kwargs(pa, col))
 
 
@@ -398,7 +572,7 @@ def build_index(levels):
     import pandera as pa
     if not levels:
         return None
-    ixs = [pa.Index(_pd_dtype(lv["dtype"]), name=lv["name"],
+    ixs = [pa.Index(_pd_dtype_of(lv), name=lv["name"],
                     **column_kwargs(pa, lv, for_index=True)) for lv in levels]
     return ixs[0] if len(ixs) == 1 else pa.MultiIndex(ixs)
 
@@ -498,7 +672,7 @@ def build(spec) -> Built:
         c = spec["columns"][0]
         kw = column_kwargs(pa, c)
         kw.pop("required"), kw.pop("regex")
-        return Built(spec, pa.SeriesSchema(None if c.get("no_dtype") else _pd_dtype(c["dtype"]),
+        return Built(spec, pa.SeriesSchema(None if c.get("no_dtype") else _pd_dtype_of(c),
                                            name=c["name"],
                                            index=build_index(spec.get("index")), **kw))
     cols = {c["name"]: build_column(c) for c in spec["columns"]}
@@ -527,6 +701,11 @@ def data_columns(spec):
 
 
 def _values(dt, vals, tz="UTC"):
+    if dt == "td":
+        return pd.to_timedelta(vals)
+    if dt == "dtl":        # naive wall-clock times (mixed date / date-time text)
+        return pd.DatetimeIndex([pd.NaT if v is None else pd.Timestamp(v)
+                                 for v in vals])
     if dt == "dt":
         return pd.to_datetime(vals)
     if dt == "dtz":
@@ -536,7 +715,7 @@ def _values(dt, vals, tz="UTC"):
 
 def _pd_series(dt, vals, tz="UTC"):
     v = _values(dt, vals, tz)
-    if dt in ("dt", "dtz"):
+    if dt in ("dt", "dtz", "td", "dtl"):
         return pd.Series(v)
     if dt == "str":
         return pd.Series(v, dtype=object)
@@ -619,7 +798,15 @@ def probes(spec, rng, max_probes=6):
         t = tab()
         t[lab][1][1] = None
         cand.append((f"null:{'nullable' if c['nullable'] else 'nonnull'}", t, {}))
-        if c["dtype"] in ("int", "float", "const", "dt"):
+        if c["dtype"] == "dtl":
+            # the wall-clock times of the DST transitions of the zone: the only
+            # data on which the tz_localize options of the data type matter
+            own = "own" if c.get("tz_opts") else "default"
+            for which, when in sorted(TZ_DST[c["tz"]].items()):
+                t = tab()
+                t[lab][1][-1] = when
+                cand.append((f"dst_{which}:{own}", t, {}))
+        if c["dtype"] in ("int", "float", "const", "dt", "td", "dtl"):
             t = tab()
             t[lab] = ("str" if backend == "pandas" else "wrong", ["x", "y", "z"])
             cand.append(("wrong_dtype", t, {}))
@@ -647,6 +834,11 @@ def probes(spec, rng, max_probes=6):
             cand.append(("tz_other:agnostic", tab(), {"tz": "Asia/Tokyo"}))
     if spec.get("index") and backend == "pandas" and kind == "frame":
         lv = spec["index"][0]
+        if lv["dtype"] == "dtl":
+            own = "own" if lv.get("tz_opts") else "default"
+            for which, when in sorted(TZ_DST[lv["tz"]].items()):
+                cand.append((f"dst_{which}:index-{own}", tab(),
+                             {"index_override": (lv["name"], when)}))
         bad = next((c["bad"] for c in lv["checks"] if c.get("bad") is not None), None)
         if bad is not None:
             cand.append(("bad_index", tab(), {"index_override": (lv["name"], bad)}))
@@ -658,8 +850,9 @@ def probes(spec, rng, max_probes=6):
     # choose: always the accepted frame, then a spread of candidates that
     # prefers the hostile classes (regex / dtz / bad checks)
     rng.shuffle(cand)
-    cand.sort(key=lambda x: 0 if (":regex" in x[0] or "tz_other" in x[0]
-                                  or "index_wrong" in x[0]) else
+    cand.sort(key=lambda x: -1 if (x[0].startswith("dst_") and x[0].endswith("default"))
+              else 0 if (":regex" in x[0] or "tz_other" in x[0]
+                         or "index_wrong" in x[0] or x[0].startswith("dst_")) else
               1 if x[0].startswith("bad_") else 2)
     seen, chosen = set(), []
     for tag, t, kw in cand:
